@@ -4,6 +4,7 @@ import Verif.Proofs.C09HtmlModelComment
 import Verif.Proofs.C09HtmlPieces
 import Verif.Proofs.C09HtmlSecond
 import Verif.Proofs.C09HtmlFlagship
+import Verif.Proofs.C09HtmlSpecial
 import Verif.Props.C03
 /-!
 # C09 / HTML — property-level theorems
@@ -94,6 +95,11 @@ theorem html_attr_written_value_counterexample : ¬ html_attr_written_value_full
 theorem html_start_tag_retokenises : type_of% @Verif.Proofs.C09HtmlTag.html_start_tag_retokenises :=
   @Verif.Proofs.C09HtmlTag.html_start_tag_retokenises
 
+/-- **html_start_tag_step**: the same at the level of `step`, with hypotheses on the lexer's token only
+    (see `Verif.Proofs.C09HtmlSpecial.html_start_tag_step`) -/
+theorem html_start_tag_step : type_of% @Verif.Proofs.C09HtmlSpecial.html_start_tag_step :=
+  @Verif.Proofs.C09HtmlSpecial.html_start_tag_step
+
 /-! ## raw-text elements -/
 
 /-- **html_rawtext_end_stable_partial**: see `Verif.Proofs.C09HtmlRaw.html_rawtext_end_stable_partial` — for every
@@ -137,6 +143,12 @@ theorem html_output_retokenises_partial : type_of% @Verif.Proofs.C09HtmlFlagship
 /-- **html_output_retokenises_counterexample** (K-C09-HTML-4): `a<`, a removed comment, `b>c` is read as a start tag `b` -/
 theorem html_output_retokenises_counterexample : ¬ Verif.Proofs.C09HtmlFlagship.html_output_retokenises_full :=
   Verif.Proofs.C09HtmlFlagship.html_output_retokenises_counterexample
+
+/-- **html_output_retokenises_lexshape_counterexample**: over the lexer grammar (`lexShape`, the decidable statement of the
+    lexer contract in `Model/C09HtmlWalk.lean`) the unguarded statement is false (K-C09-HTML-4) -/
+theorem html_output_retokenises_lexshape_counterexample :
+    ¬ Verif.Proofs.C09HtmlFlagship.html_output_retokenises_lexshape_full :=
+  Verif.Proofs.C09HtmlFlagship.html_output_retokenises_lexshape_counterexample
 
 /-- **html_text_safe_not_preserved** (K-C09-HTML-10): `<&#98;>` is written as `<b>` -/
 theorem html_text_safe_not_preserved : type_of% @Verif.Proofs.C09HtmlFlagship.html_text_safe_not_preserved :=
